@@ -198,8 +198,62 @@ def rule_eof(ctx):
     ctx.rules[-1].id = "C17.eof"
 
 
+def rule_multi_line_chunk_text(ctx):
+    """tokenize()'s strip removes the blanks at the end of a chunk's text, not the blanks in front of a line break *inside* the
+    text.  A parser that can copy a line break into the text of a chunk that is neither a comment nor a literal nor a
+    disabled-region line must therefore drop the blanks in front of it itself"""
+    from ..charwalk import CharWalk
+    from .common_fusion import _tables
+    from ..facts import enum_consts
+    db = ctx.db
+    r = ctx.rule("multi-line-chunk-text", "for every append to chunk text inside a loop of a tokenizer function whose chunk types are not all "
+                 "CT_COMMENT*/CT_STRING*/CT_IGNORED: under the bindings more()=true, get()=peek()=LF resp. CR (three-valued exploration of the "
+                 "iteration, CharTable and helper predicates evaluated on the constant) the append of that character is unreachable, or every "
+                 "path to it enters a loop that pops trailing blanks off the text")
+    chars = _tables(db)[2]
+    r.require(chars is not None and len(chars) == 128, "CharTable::chars not extracted")
+    n_sites = n_fn = 0
+    for f in sorted(db.funcs.values(), key=lambda g: (g.file, g.l0)):
+        if f.file != TOK:
+            continue
+        apps = [n for n in f.all_nodes() if n["k"] == "call" and (n.get("c") or "").endswith("::append") and "Str()" in expr_str(f, n.get("o")) and n.get("a")
+                and any(f.nblock[n["i"]] in body for h, body, _ in f.loops())]
+        if not apps:
+            continue
+        types = set()
+        for n in f.all_nodes():
+            if n["k"] == "call" and (n.get("c") or "").endswith("Chunk::SetType") and n.get("a"):
+                types |= set(enum_consts(f, n["a"][0]))
+        if types and all(t.startswith("CT_COMMENT") or t.startswith("CT_STRING") or t == "CT_IGNORED" for t in types):
+            continue
+        n_fn += 1
+        strip = set()
+        for h, body, _ in f.loops():
+            if any(n["k"] == "call" and (n.get("c") or "").endswith("::pop_back") for b in body for n in f.blocks[b]["n"]):
+                strip |= body
+        for n in apps:
+            n_sites += 1
+            r.seen()
+            loop = min((body for h, body, _ in f.loops() if f.nblock[n["i"]] in body), key=len)
+            hdr = [h for h, body, _ in f.loops() if body == loop][0]
+            t = f.blocks[hdr].get("term")
+            cond = expr_str(f, t.get("lc", t.get("c")))[:40] if t and t.get("c") is not None else "do"
+            bad = [c for c in (10, 13) if CharWalk(db, c, chars).reaches(f, n["i"], strip, value_of=n["a"][0])]
+            r.check(not bad, "%s/%s/%s" % (f.qn, cond, expr_str(f, n["i"])[:44]), db.loc(f, n),
+                    "a %s read in this loop can be copied into the chunk text without the blanks in front of it being dropped: the line that "
+                    "ends inside the chunk keeps its trailing blanks (chunk types %s)" % ("/".join("LF" if c == 10 else "CR" for c in bad), sorted(types) or "set by the caller"))
+    # checked precondition of the exception for parse_next's two `while (cnt--)` loops: they copy strlen(punc->tag) characters
+    # that find_punctuator() has just matched against the punctuator table; no entry of that table holds a line break or a blank
+    rows = _tables(db)[1]
+    r.require(len(rows) >= 90, "punctuator table not extracted")
+    badrow = [t for t, _ in rows if any(c in t for c in "\n\r \t")]
+    r.check(not badrow, "punctuator-table/no-line-break-or-blank", "src/symbols_table.h:1", "punctuator table entries with a line break or a blank: %r" % badrow)
+    r.require(n_fn >= 6 and n_sites >= 20, "only %d functions / %d append sites examined" % (n_fn, n_sites))
+    r.floor(20)
+
+
 def rule_scan_level_agreement(ctx):
     c20.rule_scan_level_agreement(ctx)
 
 
-RULES = [rule_single_writer, rule_strip, rule_tabs_off, rule_blank_buffer, rule_eof, rule_scan_level_agreement]
+RULES = [rule_single_writer, rule_strip, rule_tabs_off, rule_blank_buffer, rule_eof, rule_scan_level_agreement, rule_multi_line_chunk_text]
